@@ -46,7 +46,7 @@ PROPERTIES = {
     },
     "C01": {
         "functions": [SUP + "fit", SUP + "_find_prototypes", "opfython.core.subgraph.Subgraph.__init__",
-                      "opfython.core.subgraph.Subgraph._build"] + HEAP_FUNCS,
+                      "opfython.core.subgraph.Subgraph._build"] + HEAP_FUNCS + ["lean:OptimumPath"],
         "lemmas": HEAP_LEMMAS + ["inj_card"],
         "files": SUP_FILES,
         "bounded": "bounded.supervised",
@@ -54,9 +54,10 @@ PROPERTIES = {
         "trusted": COMMON_TRUST + GRAPH_TRUST + [
             "from the discharged postcondition (Bellman closure over all ordered pairs, prototypes at 0, every "
             "non-prototype attains max(cost(pred), d) with a predecessor strictly earlier in the conquest order) to "
-            "'cost = minimum over all paths of the largest arc' is the standard two-line argument (closure gives <= every "
-            "path by induction on path length; the predecessor chain is a path attaining it); this last step is a pencil "
-            "argument, not a solver query",
+            "'cost = minimum over all walks from a prototype of the largest arc, attained by the predecessor chain' is "
+            "the theorem optimum_path_cost of lemmas/OptimumPath.lean (Lean 4 + Mathlib, re-checked by `lean` on every "
+            "run; induction on the walk for <=, strong induction on the rank for attainment); that its hypotheses are "
+            "the postconditions a_closure / a_prototypes / b_links / acyclic_rank of fit is by inspection",
         ],
     },
     "C02": {
@@ -99,7 +100,8 @@ PROPERTIES = {
     },
     "C15": {
         "functions": ["opfython.models.semi_supervised.SemiSupervisedOPF.fit", SUP + "_find_prototypes",
-                      "opfython.core.subgraph.Subgraph.__init__", "opfython.core.subgraph.Subgraph._build"] + HEAP_FUNCS,
+                      "opfython.core.subgraph.Subgraph.__init__", "opfython.core.subgraph.Subgraph._build"] + HEAP_FUNCS
+                     + ["lean:OptimumPath"],
         "lemmas": HEAP_LEMMAS + ["inj_card"],
         "files": SUP_FILES + ["opfython/models/semi_supervised.py"],
         "bounded": "bounded.supervised",
@@ -107,6 +109,7 @@ PROPERTIES = {
         "trusted": COMMON_TRUST + GRAPH_TRUST + [
             "the clause 'with an empty unlabeled set the result is identical to supervised training' is checked by the "
             "bounded channel only (relational comparison of the two real fits), not by a solver query",
+            "the step from the discharged postconditions to 'optimum max-arc path cost' is lemmas/OptimumPath.lean (as C01)",
         ],
     },
     "C13": {
